@@ -491,27 +491,37 @@ theorem readConn_content {σ : Type} (R : Reader σ) (hR : Lawful R) (cfg : Cfg)
             have := hR _ _ _ _ hl
             omega
 
-theorem readConn_alloc_le {σ : Type} (R : Reader σ) (cfg : Cfg) (st : σ) :
-    (readConn R cfg st).alloc ≤ 6 + cfg.maxLen := by
+theorem readConn_shape {σ : Type} (R : Reader σ) (cfg : Cfg) (st : σ) :
+    (∃ a, readConn R cfg st = .needMore a ∧ a ≤ 6 + cfg.maxLen) ∨
+    (∃ e, readConn R cfg st = .err e 6) ∨
+    (∃ c st' a, readConn R cfg st = .content c st' a ∧ a ≤ 6 + cfg.maxLen) := by
   unfold readConn
   cases h6 : R.readFull 6 st with
-  | none => simp only [ReadRes.alloc]; omega
+  | none => exact Or.inl ⟨6, rfl, Nat.le_add_right 6 _⟩
   | some q =>
     obtain ⟨hd, st1⟩ := q
     simp only
     by_cases hm : hd.getD 0 0 ≠ magic0 ∨ hd.getD 1 0 ≠ magic1
-    · rw [if_pos hm]; simp only [ReadRes.alloc]; omega
+    · rw [if_pos hm]; exact Or.inr (Or.inl ⟨_, rfl⟩)
     · rw [if_neg hm]
       generalize be32 (hd.getD 2 0) (hd.getD 3 0) (hd.getD 4 0) (hd.getD 5 0) = len
       by_cases hz : len = 0
-      · rw [if_pos hz]; simp only [ReadRes.alloc]; omega
+      · rw [if_pos hz]; exact Or.inr (Or.inl ⟨_, rfl⟩)
       · rw [if_neg hz]
         by_cases hmax : len > cfg.maxLen
-        · rw [if_pos hmax]; simp only [ReadRes.alloc]; omega
+        · rw [if_pos hmax]; exact Or.inr (Or.inl ⟨_, rfl⟩)
         · rw [if_neg hmax]
+          have hle : 6 + len ≤ 6 + cfg.maxLen := Nat.add_le_add_left (Nat.le_of_not_gt hmax) 6
           cases R.readFull len st1 with
-          | none => simp only [ReadRes.alloc]; omega
-          | some r => simp only [ReadRes.alloc]; omega
+          | none => exact Or.inl ⟨_, rfl, hle⟩
+          | some r => exact Or.inr (Or.inr ⟨_, _, _, rfl, hle⟩)
+
+theorem readConn_alloc_le {σ : Type} (R : Reader σ) (cfg : Cfg) (st : σ) :
+    (readConn R cfg st).alloc ≤ 6 + cfg.maxLen := by
+  rcases readConn_shape R cfg st with ⟨a, h, ha⟩ | ⟨e, h⟩ | ⟨c, st', a, h, ha⟩
+  · rw [h]; exact ha
+  · rw [h]; exact Nat.le_add_right 6 _
+  · rw [h]; exact ha
 
 /-- FULL for the frame reader: whatever arrives, one iteration of the read loop requests at most
     6 + 2·MaxPackageLength bytes (header, content buffer, decryption buffer) -/
